@@ -325,8 +325,8 @@ func (e *explorer) run2(prefix []int, trace, noSpin bool) (*Exec, *End, string, 
 	X = x
 	t0 := x.spawn(body, "main")
 	x.cur = t0
-	watch := time.AfterFunc(60*time.Second, func() {
-		fatal("execution of %s did not finish within 60s wall clock (engine hang); prefix=%v", e.cfg.Name, prefix)
+	watch := time.AfterFunc(180*time.Second, func() {
+		fatal("execution of %s did not finish within 180s wall clock (engine hang); prefix=%v", e.cfg.Name, prefix)
 	})
 	t0.wake <- struct{}{}
 	<-x.end
